@@ -21,15 +21,15 @@ LEVEL_TEXT = ('every state reachable by at most d commands (quick d=5, thorough 
 LEVEL_NOTE = ('exhaustive to the stated depth only; canonicalisation drops directory/.trashinfo mtimes and inode numbers, which no trash-cli code path reads (grep st_mtime|st_ino is empty); '
               'trusted: R3/R4/R5 reference models')
 RULE = ('alphabet: put of 6 entries (re-created with path-determined content when absent; four of them share the base name "a" - one of these is a dangling symlink -, one is a directory, two live on /mnt/v1, one of them with a percent escape and a trailing blank in its name), restore with '
-        '(scope, reply) in {(/,0),(/home/u/w,0),(/,0-1),(/mnt/v1,0)}, rm {a,*,/home/u/w/*,b}, empty, empty 1, tick (+1 day, at most 2); BFS to the depth bound; distinct = transition outcome labels')
+        '(scope, reply) in {(/,0),(/home/u/w,0),(/,0-1),(/mnt/v1,0)}, rm {a,*,/home/u/w/*}, empty, empty 1, empty 0 (entries of the current day are exactly at the limit and stay), tick (+1 day, at most 2); BFS to the depth bound; distinct = transition outcome labels')
 DEPTH = {'quick': 5, 'thorough': 6}
 STATE_CAP = {'quick': 60000, 'thorough': 400000}
 BASE = '2024-03-01T12:00:00'
 PUTS = {'put:w/a': ('/home/u/w/a', 'file'), 'put:w/d': ('/home/u/w/d', 'tree'), 'put:w/sub/a': ('/home/u/w/sub/a', 'file'),
         'put:v1/p/a': ('/mnt/v1/p/a', 'file'), 'put:v1/p/b': ('/mnt/v1/p/b%41 ', 'file'), 'put:w/ln/a': ('/home/u/w/ln/a', 'ldang')}
 RESTORES = {'restore:/,0': ('/', '0'), 'restore:w,0': ('/home/u/w', '0'), 'restore:/,0-1': ('/', '0-1'), 'restore:v1,0': ('/mnt/v1', '0')}
-RMS = {'rm:a': 'a', 'rm:*': '*', 'rm:/home/u/w/*': '/home/u/w/*', 'rm:b': 'b'}
-ACTIONS = list(PUTS) + list(RESTORES) + list(RMS) + ['empty', 'empty:1', 'tick']
+RMS = {'rm:a': 'a', 'rm:*': '*', 'rm:/home/u/w/*': '/home/u/w/*'}
+ACTIONS = list(PUTS) + list(RESTORES) + list(RMS) + ['empty', 'empty:1', 'empty:0', 'tick']
 MOUNTS = ['/', '/mnt/v1']
 ENV = {'HOME': '/home/u'}
 
@@ -177,12 +177,12 @@ def apply(sb, model, action):
         execs += 1
         bag2 = R3.rm(bag, RMS[action])
         label = 'rm(%d removed)' % (len(bag) - len(bag2))
-    elif action in ('empty', 'empty:1'):
-        days = None if action == 'empty' else 1
-        r = sb.run(['trash-empty'] + ([] if days is None else ['1']), env=ENV, cwd='/', now=now)
+    elif action in ('empty', 'empty:1', 'empty:0'):
+        days = None if action == 'empty' else int(action.split(':')[1])
+        r = sb.run(['trash-empty'] + ([] if days is None else [str(days)]), env=ENV, cwd='/', now=now)
         execs += 1
         bag2 = R3.empty(bag, now, days)
-        label = 'empty%s(%d removed)' % ('' if days is None else '1', len(bag) - len(bag2))
+        label = 'empty%s(%d removed)' % ('' if days is None else str(days), len(bag) - len(bag2))
     else:
         if day >= 2:
             return {'bag': bag, 'day': day}, 'tick(capped)', None, 0
